@@ -1,5 +1,6 @@
 import Hive.Gen.C08_Loop
 import Hive.Proofs.BatchWriterCanon
+import Hive.Model.BatchWriterErr
 /-!
 # C08 — the writer goroutine of the protocol model is derived from the source
 
@@ -265,5 +266,31 @@ theorem C08_nil_timer_channel_is_notimer_model (s : St) (idx : Nat) (ph : Phase)
     · rcases hi with rfl | rfl | rfl | rfl | rfl <;> simp [absW, wpcIdx] at h5 ⊢
     · rcases hi with rfl | rfl <;> rcases hp with rfl | rfl | rfl <;> simp [absW, wpcIdx]
     · rcases hi with rfl | rfl | rfl | rfl <;> rcases hp with rfl | rfl <;> simp [absW, wpcIdx]
+
+/-! ### The store calls of `sysE` are the store calls of the source
+
+`storeCall` (`Model/BatchWriterErr.lean`) says at which steps of the hand-written writer `sysE` lets the store fail.  The
+same read off the compiled program: a step whose goroutine-local continuation passes a `newCollector` instruction calls
+`store.Batched()`; the first step of a `commit` instruction on a non-empty batch calls `batchedMuts.Commit()`. -/
+
+/-- the store call made by the derived writer's next step at instruction `idx` in phase `ph` -/
+def storeCallD (prog : List WI) (s : St) (idx : Nat) (ph : Phase) : Option String :=
+  match prog[idx]? with
+  | some (.brLoad .running yes _) => if s.running ∧ prog[yes]? = some .newCollector then some "Batched" else none
+  | some (.brLoad .countNonZero yes _) => if s.count ≠ 0 ∧ prog[yes]? = some .newCollector then some "Batched" else none
+  | some .commit =>
+    match ph with
+    | .done => if s.todo = [] ∧ prog[idx + 1]? = some .newCollector then some "Batched" else none
+    | _ => if s.batch ≠ [] then some "Commit" else none
+  | _ => none
+
+/-- **Where `sysE` lets the store fail is where the source calls the store.** -/
+theorem C08_store_calls_are_source (s : St) (idx : Nat) (ph : Phase) (h : restingW idx ph) :
+    storeCall (absW s idx ph) = storeCallD (compile fn_runBatchWriter) (absW s idx ph) idx ph := by
+  rw [C08_loop_compile]
+  rcases h with ⟨hi, rfl⟩ | ⟨hi, hp⟩ | ⟨hi, hp⟩
+  · rcases hi with rfl | rfl | rfl | rfl | rfl <;> simp [storeCall, storeCallD, absW, wpcIdx]
+  · rcases hi with rfl | rfl <;> rcases hp with rfl | rfl | rfl <;> simp [storeCall, storeCallD, absW, wpcIdx]
+  · rcases hi with rfl | rfl | rfl | rfl <;> rcases hp with rfl | rfl <;> simp [storeCall, storeCallD, absW, wpcIdx]
 
 end Hive.BatchWriter
